@@ -42,7 +42,18 @@ func (e *loadError) Error() string { return e.msg }
 
 // Load type-checks ./... of repo with the given build tags. Dependencies outside the module come from
 // export data (they are needed for their types only).
-func Load(repo, tags string) (*Prog, error) {
+func Load(repo, cfgSpec string) (*Prog, error) {
+	// cfgSpec: "" | "poll_opt" | "GOOS=darwin" | "GOOS=darwin,poll_opt"
+	tags, goos := "", ""
+	for _, part := range strings.Split(cfgSpec, ",") {
+		switch {
+		case part == "":
+		case strings.HasPrefix(part, "GOOS="):
+			goos = strings.TrimPrefix(part, "GOOS=")
+		default:
+			tags = part
+		}
+	}
 	env := []string{}
 	for _, kv := range os.Environ() {
 		if strings.HasPrefix(kv, "GOWORK=") || strings.HasPrefix(kv, "GOFLAGS=") {
@@ -51,6 +62,9 @@ func Load(repo, tags string) (*Prog, error) {
 		env = append(env, kv)
 	}
 	env = append(env, "GOFLAGS=-mod=mod", "GOPROXY=off", "GOSUMDB=off", "GOTOOLCHAIN=local", "GOWORK=off")
+	if goos != "" {
+		env = append(env, "GOOS="+goos, "CGO_ENABLED=0")
+	}
 	cfg := &packages.Config{
 		Mode: packages.NeedName | packages.NeedFiles | packages.NeedCompiledGoFiles | packages.NeedImports |
 			packages.NeedTypes | packages.NeedTypesSizes | packages.NeedSyntax | packages.NeedTypesInfo,
@@ -81,7 +95,7 @@ func Load(repo, tags string) (*Prog, error) {
 		}
 		return nil, &loadError{"the tree does not type-check:\n  " + strings.Join(errs, "\n  ")}
 	}
-	p := &Prog{Repo: repo, Tags: tags, Pkgs: map[string]*packages.Package{}, SPkgs: map[string]*ssa.Package{},
+	p := &Prog{Repo: repo, Tags: cfgSpec, Pkgs: map[string]*packages.Package{}, SPkgs: map[string]*ssa.Package{},
 		byName: map[string]*ssa.Function{}, implCache: map[string][]*ssa.Function{}}
 	for _, pk := range pkgs {
 		if pk.PkgPath == modPath || strings.HasPrefix(pk.PkgPath, modPath+"/") {
